@@ -92,6 +92,7 @@ TECHNIQUE = ("deterministic simulation: scripted hostile FTP client over a simul
              "scenario-owned data channels (PASV/EPSV fake ports, PORT/EPRT connectTCP stub) with seeded timing, loss and time-outs, "
              "process-wide audit hook on filesystem calls + textual containment model")
 QUICK_RUNS = 16000
+TWIN_P = 0.08   # this share of the runs drives two independent instances of the scenario one after the other (detsim.runner._run_scenario)
 BATCH = 50
 RUN_WALL_LIMIT_S = 90
 COMPONENTS = {
